@@ -96,8 +96,18 @@ func canon(sb *strings.Builder, o ugo.Object, depth int) {
 	case HostObject:
 		sb.WriteString("host:" + v.CanonID())
 	default:
-		sb.WriteString("<" + o.TypeName() + ">")
+		sb.WriteString("<" + safeTypeName(o) + ">")
 	}
+}
+
+// safeTypeName tolerates objects that embed ObjectImpl without overriding TypeName (it panics).
+func safeTypeName(o ugo.Object) (name string) {
+	defer func() {
+		if recover() != nil {
+			name = fmt.Sprintf("%T", o)
+		}
+	}()
+	return o.TypeName()
 }
 
 func canonMap(sb *strings.Builder, m ugo.Map, depth int) {
